@@ -31,6 +31,12 @@ func window() int64 {
 	return 400 * 24 * 3600
 }
 
+// secs returns a symbolic whole number of seconds (configured lifetimes: the sub-second phase comes from
+// the clock and from the waiting time, which keeps the Round arithmetic easy for the solver).
+func secs(name string, minSec, maxSec int64) time.Duration {
+	return time.Duration(zz.Int(name+".s", minSec, maxSec)) * time.Second
+}
+
 // dur returns a symbolic duration of minSec..maxSec seconds plus a symbolic sub-second part.
 func dur(name string, minSec, maxSec int64) time.Duration {
 	s := zz.Int(name+".s", minSec, maxSec)
@@ -98,12 +104,12 @@ func setup() (*world.World, *lifetimes) {
 		lt.serverAT, lt.serverRT = time.Hour, 30*24*time.Hour
 		zz.Cover("source:server-default", true)
 	case 2: // configured, refresh tokens unlimited
-		cfgAT = dur("cfg.at", 1, w)
+		cfgAT = secs("cfg.at", 1, w)
 		cfgRT = -1
 		lt.serverAT, lt.serverRT = cfgAT, -1
 		zz.Cover("source:configured+unlimited-refresh", true)
 	default:
-		cfgAT, cfgRT = dur("cfg.at", 1, w), dur("cfg.rt", 1, w)
+		cfgAT, cfgRT = secs("cfg.at", 1, w), secs("cfg.rt", 1, w)
 		lt.serverAT, lt.serverRT = cfgAT, cfgRT
 		zz.Cover("source:configured", scenario == 1)
 	}
@@ -121,7 +127,7 @@ func setup() (*world.World, *lifetimes) {
 		l := &fosite.ClientLifespanConfig{}
 		ptrs := slotPtrs(l)
 		for i := range ptrs {
-			v := dur("override", 1, w)
+			v := secs("override", 1, w)
 			if scenario == 5 && (i == slotCodeRT || i == slotPasswordRT || i == slotRefreshRT) {
 				v = -1
 			}
@@ -148,11 +154,17 @@ func expiresIn(r fosite.AccessResponder) (int64, bool) {
 // ZZ_C07_flow_lifetimes
 func ZZ_C07_flow_lifetimes() {
 	wd, lt := setup()
-	flow := zz.Choice("flow", 4)
+	nflows := 4
+	if zz.Thorough() {
+		nflows = 5 // + implicit grant at the authorization endpoint
+	}
+	flow := zz.Choice("flow", nflows)
 	var resp fosite.AccessResponder
 	var err error
 	atSlot, rtSlot := -1, -1
 	scopes := []string{"offline", "photos"}
+	var at, rt string
+	var advertised, wantAT time.Duration
 	switch flow {
 	case 0, 1:
 		code, _, aerr := wd.AuthorizeCode("c1", scopes, nil)
@@ -174,16 +186,41 @@ func ZZ_C07_flow_lifetimes() {
 	case 3:
 		resp, err = wd.Token("c1", "", url.Values{"grant_type": {"client_credentials"}, "scope": {"photos"}})
 		atSlot = slotCCAT
+	case 4:
+		// implicit: the access token comes from the authorization endpoint; the session may bring its own expiry
+		zz.Cover("flow:implicit", true)
+		ar, aerr := wd.Provider.NewAuthorizeRequest(wd.Ctx, get(url.Values{"client_id": {"c1"}, "response_type": {"token"},
+			"redirect_uri": {"https://c1.example/cb"}, "scope": {"photos"}, "state": {"state-0123456789"}}))
+		zz.Assume(aerr == nil)
+		ar.GrantScope("photos")
+		sess := world.NewSession("peter")
+		wantAT = lt.of(slotImplicitAT, lt.serverAT)
+		if zz.Bool("session.expiry") {
+			wantAT = dur("session.at", 1, window())
+			sess.SetExpiresAt(fosite.AccessToken, time.Now().Add(wantAT))
+			zz.Cover("source:session-provided", true)
+		}
+		aresp, rerr := wd.Provider.NewAuthorizeResponse(wd.Ctx, ar, sess)
+		zz.Assert(rerr == nil, "flow succeeds")
+		if rerr != nil {
+			return
+		}
+		at = aresp.GetParameters().Get("access_token")
+		zz.Assert(at != "", "implicit response carries the access token")
+		// expires_in is a decimal string here; the region cut below uses the lifetime source instead
+		advertised = wantAT
 	}
-	zz.Assert(err == nil, "flow succeeds")
-	if err != nil {
-		return
+	if flow != 4 {
+		zz.Assert(err == nil, "flow succeeds")
+		if err != nil {
+			return
+		}
+		at, rt = resp.GetAccessToken(), world.RefreshTokenOf(resp)
+		adv, ok := expiresIn(resp)
+		zz.Assert(ok, "expires_in is present")
+		advertised = time.Duration(adv) * time.Second
+		wantAT = lt.of(atSlot, lt.serverAT)
 	}
-	at, rt := resp.GetAccessToken(), world.RefreshTokenOf(resp)
-	adv, ok := expiresIn(resp)
-	zz.Assert(ok, "expires_in is present")
-	advertised := time.Duration(adv) * time.Second
-	wantAT := lt.of(atSlot, lt.serverAT)
 
 	// (1) the advertised lifetime is the one of this flow's lifetime source (rounded to a second)
 	zz.Assert(advertised <= wantAT+slack && advertised > wantAT-2*slack, "expires_in equals the effective access-token lifespan of this grant")
@@ -193,22 +230,26 @@ func ZZ_C07_flow_lifetimes() {
 	zz.Advance(d)
 	active, _ := wd.Introspect(at, fosite.AccessToken)
 	// The regions are cut by the advertised value (an output that natively depends on the sub-second
-	// phase of the clock): labels and observations are taken 3s inside so that the covering models replay alike.
+	// phase of the clock): labels and observations are taken well inside, cut by the configured lifetime
+	// (an input), so that the covering models replay alike.
 	if d > advertised+time.Second+slack {
 		zz.Assert(!active, "access token is not honoured after its advertised lifetime (+1s)")
-		if d > advertised+5*time.Second {
+		if d > wantAT+6*time.Second {
 			zz.Cover("access:after-advertised-lifetime", true)
 			zz.Observe("access.active", active)
 		}
 	} else if d < advertised-slack {
 		zz.Assert(active, "access token is honoured until its advertised lifetime")
-		if d < advertised-4*time.Second {
+		if d < wantAT-6*time.Second {
 			zz.Cover("access:within-advertised-lifetime", true)
 			zz.Observe("access.active", active)
 		}
 	}
 
 	// (3) refresh token: lifetime source and expiry, at introspection and at the token endpoint
+	if flow == 4 {
+		return
+	}
 	if flow == 3 {
 		zz.Assert(rt == "", "client_credentials issues no refresh token")
 		return
@@ -253,7 +294,7 @@ func ZZ_C07_code_expiry() {
 	var life time.Duration
 	unset := zz.Bool("life.unset")
 	if !unset {
-		life = dur("life", 1, w)
+		life = secs("life", 1, w)
 	}
 	wd := world.New(world.Options{Tweak: func(cfg *fosite.Config) { cfg.AuthorizeCodeLifespan = life }})
 	eff := life
@@ -315,7 +356,7 @@ func ZZ_C07_par_expiry() {
 	var life time.Duration
 	unset := zz.Bool("life.unset")
 	if !unset {
-		life = dur("life", 1, w)
+		life = secs("life", 1, w)
 	}
 	wd := world.New(world.Options{Tweak: func(cfg *fosite.Config) { cfg.PushedAuthorizeContextLifespan = life }})
 	p := parProvider(wd)
@@ -359,5 +400,70 @@ func ZZ_C07_par_expiry() {
 		}
 	} else {
 		zz.Cover("par:boundary", true)
+	}
+}
+
+// ---- device grant
+
+// ZZ_C07_device_flow: device authorization, optional user approval, a symbolic wait, then the poll at
+// the token endpoint: nothing is issued for a device code whose advertised lifetime has passed.
+func ZZ_C07_device_flow() {
+	w := window()
+	var life time.Duration
+	unset := zz.Bool("life.unset")
+	if !unset {
+		life = secs("life", 1, w)
+	}
+	wd := world.New(world.Options{
+		Tweak: func(cfg *fosite.Config) { cfg.DeviceAndUserCodeLifespan = life },
+		Extra: []compose.Factory{compose.RFC8628DeviceFactory, compose.RFC8628DeviceAuthorizationTokenFactory},
+	})
+	eff := life
+	if unset {
+		eff = 10 * time.Minute // documented default
+	}
+	dreq, err := wd.Provider.NewDeviceRequest(wd.Ctx, post(url.Values{"client_id": {"c1"}, "client_secret": {world.Secret1}, "scope": {"offline photos"}}))
+	zz.Assume(err == nil)
+	dresp, err := wd.Provider.NewDeviceResponse(wd.Ctx, dreq, world.NewSession(""))
+	zz.Assume(err == nil)
+	deviceCode := dresp.GetDeviceCode()
+	advertised := time.Duration(dresp.GetExpiresIn()) * time.Second
+	zz.Assert(deviceCode != "" && dresp.GetUserCode() != "", "device and user code issued")
+	zz.Assert(advertised <= eff+slack && advertised > eff-2*slack, "device expires_in equals the configured lifetime (whole seconds)")
+
+	// the resource owner approves (application side: the stored request is marked accepted and granted)
+	accepted := false
+	if zz.Bool("accepted") {
+		accepted = true
+		for _, r := range wd.Store.DeviceAuths {
+			r.SetUserCodeState(fosite.UserCodeAccepted)
+			r.GrantScope("offline")
+			r.GrantScope("photos")
+			if ds, ok := r.GetSession().(*fosite.DefaultSession); ok {
+				ds.Subject = "peter" // the session (with the expiries the device endpoint wrote) is kept
+			}
+		}
+	}
+	d := dur("advance", 0, 2*w)
+	zz.Advance(d)
+	resp, err := wd.TokenAs("c1", world.Secret1, url.Values{"grant_type": {"urn:ietf:params:oauth:grant-type:device_code"}, "device_code": {deviceCode}})
+	name := world.ErrName(err)
+	if d > eff+time.Second+slack {
+		zz.Cover("device:after-lifetime", true)
+		zz.Cover("device:after-lifetime:approved", accepted)
+		zz.Observe("poll.err", name)
+		zz.Assert(err != nil, "device code is not honoured after its lifetime")
+	} else if d < eff-time.Second-slack {
+		if accepted {
+			zz.Cover("device:within-lifetime:approved", true)
+			zz.Observe("poll.err", name)
+			zz.Assert(err == nil, "approved device code is honoured within its lifetime")
+			if err == nil {
+				zz.Assert(resp.GetAccessToken() != "", "tokens issued")
+			}
+		} else {
+			zz.Cover("device:within-lifetime:pending", true)
+			zz.Assert(err != nil, "undecided device code yields no tokens")
+		}
 	}
 }
